@@ -200,8 +200,10 @@ func (ga *GroupAggregator) Add(data any) error {
 		var fieldVal any
 		var found bool
 
-		// Check if it's a nested field
-		if fieldpath.IsNestedField(field) {
+		// Check if it's a nested field. A computed key (scalar-function expression such as
+		// floor(v*0.1)) is injected into the row under its own text and is never a path,
+		// whatever dots or brackets the expression contains.
+		if fieldpath.IsNestedField(field) && !strings.Contains(field, "(") {
 			fieldVal, found = fieldpath.GetNestedField(data, field)
 		} else {
 			// Original field access logic
